@@ -66,8 +66,10 @@ class Stream(Native):
 
 
 class Msg(object):
-    def __init__(self, start, length, full='ok', info='ok', category=0, n_subsets=1, matched=True, info_len=None, declared=None):
+    def __init__(self, start, length, full='ok', info='ok', category=0, n_subsets=1, matched=True, info_len=None, declared=None, foreign=False):
         self.start, self.length, self.full, self.info = start, length, full, info
+        # data category 11, but not in the layout of a table-definition message: an ordinary message, nothing to register
+        self.foreign = foreign
         self.category, self.n_subsets, self.matched = category, n_subsets, matched
         # octets a metadata-only decode consumes (it follows the section lengths, which may be the damaged ones)
         self.info_len = length - 4 if info_len is None else info_len
@@ -144,6 +146,9 @@ class Scanner(Interp):
             return Obj('TableProcessorStub', {})
         if text.endswith('.process') and isinstance(callee, UnknownMethod) and isinstance(callee.recv, Obj) and callee.recv.cls == 'TableProcessorStub':
             m = args[0]
+            if self.msgs[m.fields['__start']].foreign:
+                self.event('tables_refused', m.fields['__start'], m.fields['__mode'])
+                raise Raise(LIB, node, self.where(node, frame))
             self.event('tables', m.fields['__start'], m.fields['__mode'])
             return (Sym('A'), Sym('B_ENTRIES'), Sym('D_ENTRIES'))
         if text in ('TableGroupCacheManager.invalidate', 'TableGroupCacheManager.add_extra_entries'):
@@ -166,11 +171,13 @@ def scenario():
         Msg(250, 50, category=11, n_subsets=3, matched=False),     # table definitions
         Msg(300, 40, full=LIB, info=LIB, matched=True),            # damaged header: even the metadata decode fails
         Msg(345, 35, matched=True, declared=31),                   # intact sections, section-0 total understated
+        Msg(385, 30, category=11, n_subsets=2, matched=True, foreign=True),   # data category 11 in another layout: a message like any other
+        Msg(420, 25, matched=True),
     ]
     decoys = [130, 320]
     # stop signatures: the real end of every message, and the characters '7777' inside the bodies of two messages
     stops = [m.start + m.length - 4 for m in msgs] + [50, 150]
-    stream = Stream(395, [m.start for m in msgs] + decoys, stops)
+    stream = Stream(448, [m.start for m in msgs] + decoys, stops)
     return msgs, stream
 
 
@@ -196,7 +203,7 @@ def expected(msgs, info_only, use_filter, cont):
                     break
                 continue
             if not m.matched:
-                if m.category == 11 and m.n_subsets > 0 and m.full == 'ok':
+                if m.category == 11 and m.n_subsets > 0 and m.full == 'ok' and not m.foreign:
                     tables.append((m.start, 'full'))
                 continue
         if m.full != 'ok':
@@ -204,7 +211,7 @@ def expected(msgs, info_only, use_filter, cont):
                 exc = m.full
                 break
             continue
-        if m.category == 11 and m.n_subsets > 0:
+        if m.category == 11 and m.n_subsets > 0 and not m.foreign:
             tables.append((m.start, 'full'))
         ys.append((m.start, m.start, m.start + m.length, 'full'))
     return ys, exc, tables
